@@ -317,9 +317,14 @@ def inherited_component_metadata():
     n = [v for v in types["base"].variables if v.name == "n"][0]
     inherited = [v for v in types["child"].variables if v.name == "n"]
     own = [v for v in types["child"].variables if v.name == "own"][0]
+    mdm = loader.import_repo("ford._markdown")
+    proj.markdown(mdm.MetaMarkdown(aliases={}, project=proj))
+    words = lambda e: re.findall(r"[A-Za-z]\w*", html.unescape(re.sub(r"<[^>]+>", " ", str(e))))
     got = {"base%n": (bool(n.meta.deprecated), str(n.meta.version), " ".join(n.doc_list).split()), "child%n is base%n": bool(inherited) and inherited[0] is n,
-           "child%own": (bool(own.meta.deprecated), str(own.meta.version), " ".join(own.doc_list).split())}
-    want = {"base%n": (True, "3", ["componentw1", "componentw2"]), "child%n is base%n": True, "child%own": (False, "4", ["ownw1"])}
+           "child%own": (bool(own.meta.deprecated), str(own.meta.version), " ".join(own.doc_list).split()),
+           "rendered base%n": words(n.doc), "rendered summary of base%n": words(n.meta.summary)[:2], "rendered child%own": words(own.doc)}
+    want = {"base%n": (True, "3", ["componentw1", "componentw2"]), "child%n is base%n": True, "child%own": (False, "4", ["ownw1"]),
+            "rendered base%n": ["componentw1", "componentw2"], "rendered summary of base%n": ["componentw1", "componentw2"], "rendered child%own": ["ownw1"]}
     if got != want:
         return {"confirmed": True, "input": {"source": src}, "actual": got, "expected": want, "how": "real pipeline (Project.correlate): metadata and documentation of the components of a type and of its extension"}
     return None
